@@ -203,8 +203,16 @@ class Report:
             print("VIOLATION property=%s replay=%s%s" % (self.prop, path, " no-failing-input-found" if no_input else ""))
             if nviol >= 5:
                 break
-        ev = {"property_id": self.prop, "tier": self.tier, "seed": self.seed, "level": self.level,
-              "coverage": dict(self.cov, **self.notes), "assumptions": self.assumptions,
+        level = self.level
+        cov = dict(self.cov, **self.notes)
+        if level == "proof" and cov.get("obligations", 0) and cov.get("discharged", 0) != cov.get("obligations"):
+            # the proof obligations did not all check on this run (reported as a VIOLATION above): what this run
+            # established is what it explored, and the evidence says so instead of claiming the proof level
+            level = "exploration"
+            cov["rule"] = cov.get("rule") or "cases generated as described in DESIGN.md section 6; distinct by full input, non-trivial by size"
+            cov["proof_level_not_reached"] = "%d of %d obligations discharged" % (cov.get("discharged", 0), cov.get("obligations", 0))
+        ev = {"property_id": self.prop, "tier": self.tier, "seed": self.seed, "level": level,
+              "coverage": cov, "assumptions": self.assumptions,
               "wall_s": round(time.time() - self.t0, 2), "violations": nviol,
               "known_findings_reported": sorted(self.known_hits)}
         json.dump(ev, open(os.path.join(EVID, "%s.json" % self.prop), "w"), indent=1, default=repr)
@@ -241,10 +249,17 @@ def proof_stage(rep, prop):
         "Print Assumptions for the %d theorems of Props/%s.v: %d 'Closed under the global context'%s" % (
             len(thms), prop, closed, ("; axioms: " + " | ".join(a.strip() for a in axioms)) if axioms else "; no axioms"),
         "harness/extract.py (Python ast -> coq/Gen/*.v), fail-closed",
+        "harness/translate.py (Python ast -> Gen/PylSrc.v, constructor by constructor, fail-closed) and the semantics of the fragment in Model/Pyl.v",
         "correspondence harness (instrumented sources/callables, hand-driven coroutines) and the Coq comparison functions",
         "modelled, not verified: CPython semantics of await / async generators / aclose, heapq and list.sort (abstract), dict/set/deque",
     ]
     rep.notes["theorems"] = thms
+    try:
+        gen = open(os.path.join(COQ, "Gen", "PylSrc.v")).read()
+        rep.notes["translated_source"] = {"functions_translated_this_run": gen.count("Definition src_"), "unsupported_statements": gen.count("SUnsupported"),
+                                          "equivalence_theorems_in_this_property": len([t for t in thms if t.endswith("_ok") and "_src_" in t])}
+    except OSError:
+        pass
     if rep.tier == "thorough":
         # independent re-check of the compiled property file and everything it depends on
         with BuildLock():
